@@ -165,6 +165,8 @@ def ite(c, a, b):
         return mk("struct", a.args[0], a.args[1], *[ite(c, x, y) for x, y in zip(a.args[2:], b.args[2:])])
     if a.op == "variant" and b.op == "variant" and a.args[0] == b.args[0] and len(a.args) == len(b.args):
         return mk("variant", a.args[0], *[ite(c, x, y) for x, y in zip(a.args[1:], b.args[1:])])
+    if a.op == "variant_struct" and b.op == "variant_struct" and a.args[0] == b.args[0] and a.args[1] == b.args[1]:
+        return mk("variant_struct", a.args[0], a.args[1], *[ite(c, x, y) for x, y in zip(a.args[2:], b.args[2:])])
     return mk("ite", c, a, b)
 
 
@@ -280,6 +282,8 @@ def update_field(base, name, val):
 
 
 def index(base, idx):
+    if base.op == "bits_le" and idx is lit(0):
+        return mk("sign", base.args[0])      # lsb of the canonical little-endian bit decomposition = the sign convention
     if is_lit(idx) and isinstance(idx.args[0], int):
         i = idx.args[0]
         if base.op == "array" and 0 <= i < len(base.args):
@@ -330,7 +334,7 @@ def variant(name, *payload):
 
 
 def is_variant(x, name):
-    if x.op == "variant":
+    if x.op in ("variant", "variant_struct"):
         return TRUE if x.args[0] == name else FALSE
     if x.op == "ite":
         return ite(x.args[0], is_variant(x.args[1], name), is_variant(x.args[2], name))
@@ -338,6 +342,10 @@ def is_variant(x, name):
 
 
 def payload(x, name, i=0):
+    if x.op == "variant_struct":
+        if x.args[0] == name and 2 + i < len(x.args):
+            return x.args[2 + i]
+        return mk("bottom")
     if x.op == "variant":
         if x.args[0] == name and 1 + i < len(x.args):
             return x.args[1 + i]
